@@ -265,11 +265,15 @@ def run(ctx):
             alpha = letters(compiler, idx)
             for a in alpha:
                 tasks.append(("gauss", compiler, n, idx, (a,), L))
-    hy = letters("gaussian_merge_hybrid", (0, 1, 2) if not quick else (0, 1))
-    Lh = 3 if quick else 3
-    nh = 3 if not quick else 2
-    for a in hy:
-        tasks.append(("hybrid", "gaussian_merge", nh, (0, 1, 2)[:nh], (a,), Lh))
+    # hybrid circuits: two modes up to length 4 (5 thorough), three modes up to length 3 (thorough)
+    hy2 = letters("gaussian_merge_hybrid", (0, 1))
+    for a, b in itertools.product(hy2, repeat=2):
+        tasks.append(("hybrid", "gaussian_merge", 2, (0, 1), (a, b), 4 if quick else 5))
+    for a in hy2:
+        tasks.append(("hybrid", "gaussian_merge", 2, (0, 1), (a,), 1))
+    if not quick:
+        for a in letters("gaussian_merge_hybrid", (0, 1, 2)):
+            tasks.append(("hybrid", "gaussian_merge", 3, (0, 1, 2), (a,), 3))
     for r in ctx.pmap(work, tasks, chunksize=2):
         ctx.add(r)
         if ctx.time_left() < 0:
@@ -279,7 +283,7 @@ def run(ctx):
     ctx.cov["index_sets"] = [[n, list(i)] for n, i in INDEX_SETS]
     ctx.assumptions += [
         "pure Gaussian circuits: equality of the reference (X, Y, d) on the full register decides equality for every input state; hybrid circuits (gaussian_merge with Kgate/Vgate/CKgate): differential run of source and compiled program on the Fock simulator at cutoff 9 with small parameters, tolerance 1e-6 + 4 sqrt(lost norm)",
-        "index sets {0,1,2}, {1,9}, {8,0}, {3,7,9}, {0,10,2}, {16,8,1} in registers of 3-17 modes; length <= 2 (3 on the contiguous set in thorough)",
+        "index sets {0,1,2}, {1,9}, {8,0}, {3,7,9}, {0,10,2}, {16,8,1} in registers of 3-17 modes; length <= 2 (3 on the contiguous set in thorough); hybrid circuits: 2 modes up to length 4 (5 thorough), 3 modes up to length 3 (thorough)",
     ]
 
 
